@@ -265,15 +265,19 @@ func TestC13ExitRace(t *testing.T) {
 	}
 	for i := 0; i < vstat.Pick(30, 150); i++ {
 		idle := time.Duration(40+i%3*20) * time.Millisecond
-		v := RunExitSqueeze(idle)
+		squeeze, kind := RunExitSqueeze, "exit_squeeze"
+		if i%2 == 1 {
+			squeeze, kind = RunExitSqueezeCallFirst, "exit_squeeze_call_first"
+		}
+		v := squeeze(idle)
 		if v != nil && timeBound[v.Sig] {
-			if v2 := RunExitSqueeze(idle); v2 == nil {
+			if v2 := squeeze(idle); v2 == nil {
 				st.Inconclusivef("%s once in the exit squeeze, passed on re-run", v.Sig)
 				v = nil
 			}
 		}
-		st.Report(t, "TestC13ExitRace", map[string]any{"exit_squeeze_idle_ms": idle.Milliseconds()}, v)
-		st.Case(true, uint64(0xe517)+uint64(idle), func() any { return map[string]any{"exit_squeeze_idle_ms": idle.Milliseconds()} }, "exit_squeeze")
+		st.Report(t, "TestC13ExitRace", map[string]any{kind + "_idle_ms": idle.Milliseconds()}, v)
+		st.Case(true, uint64(0xe517)+uint64(idle)+uint64(i%2), func() any { return map[string]any{kind + "_idle_ms": idle.Milliseconds()} }, kind)
 	}
 	for i := 0; i < vstat.Pick(12, 80); i++ {
 		idle := time.Duration(30+i%3*15) * time.Millisecond
